@@ -296,6 +296,7 @@ def run(ctx: core.Ctx):
     ctx.floor('table.update', 1000)
     ctx.floor('table.invariant_evaluations', 10000)
     ctx.floor('mdib.walks', 1000)
+    ctx.floor('mdib.foreign_grouping.reports', 5)
 
 
 def dispatch(ctx: core.Ctx, job):
